@@ -80,7 +80,7 @@ def variant(arg, val='int'):
         'pt_done': PTX + r'done\(\) const$', 'pt_value': PTX + r'value\(\)$', 'pt_exception': PTX + r'exception\(\) const$',
         'na_bool': NAX + r'operator bool\(\) const$', 'na_not': NAX + r'operator!\(\) const$', 'na_await_ready': NAX + r'await_ready\(\) const$',
         'na_await_suspend': NAX + r'await_suspend\(std::__n4861::coroutine_handle<void>\)$', 'na_await_resume': NAX + r'await_resume\(\) const$', 'na_subscribe': NAX + r'subscribe\(cocls::awaiter\*\)$',
-        'gen_next': '^' + esc(G) + '::next_awt ' + esc(G) + '::next<', 'gen_value': '^' + esc(G) + r'::value\(\)$', 'gen_call': r'^cocls::future<%s> ' % val + esc(G) + r'::operator\(\)<(>|%s&>)' % A,
+        'gen_next': '^' + esc(G) + '::next_awt ' + esc(G) + r'::next<(>|%s&>)' % A, 'gen_next_rv': '^' + esc(G) + '::next_awt ' + esc(G) + r'::next<%s>\(' % A, 'gen_call_rv': r'^cocls::future<%s> ' % val + esc(G) + r'::operator\(\)<%s>\(' % A, 'gen_value': '^' + esc(G) + r'::value\(\)$', 'gen_call': r'^cocls::future<%s> ' % val + esc(G) + r'::operator\(\)<(>|%s&>)' % A,
         'gen_done': '^' + esc(G) + r'::done\(\) const$', 'gen_bool': '^' + esc(G) + r'::operator bool\(\) const$', 'gen_begin': '^drv_gen_begin$', 'gen_end': '^drv_gen_end$',
         'gen_deleter': '^' + esc(G) + r'::deleter::operator\(\)\(', 'gen_get_id': '^' + esc(G) + r'::get_id\(\)$',
         'it_ctor_fin': ITX + r'generator_iterator\(' + esc(G) + r'&, bool\)$', 'it_ctor': ITX + r'generator_iterator\(' + esc(G) + r'&\)$', 'it_eq': ITX + r'operator==\(', 'it_ne': ITX + r'operator!=\(',
@@ -114,28 +114,29 @@ C_LIBS = ['rt_core.c', 'rt_atomic_seq.c', 'model_atomic_ptr_api.c']
 MV = 'c13_mv'
 VAR = {('int', 'void'): variant('void'), ('int', 'int'): variant('int'), (MV, 'void'): variant('void', MV), ('int', MV): variant(MV)}
 DRV_T = 'c13_types.cpp'
-def cu(name, alias, arg='void', uses=(), fnptr=(), lam=False, val='int', extra=(), **kw):
+def cu(name, alias, arg='void', uses=(), fnptr=(), lam=False, val='int', extra=(), key=None, **kw):
     """one function under contract; `uses` = abstract callees (boundary + recording stub), `fnptr` = functions whose address is compared,
     `extra` = further translated functions the stubs call (roots + aliases); val/arg select the instantiation generator<val, arg>"""
     G, N, T = VAR[(val, arg)]
     APV = ap_of(val)
-    names = {alias: N[alias]}
+    key = key or alias      # `key`: entry of N that the alias is bound to (rvalue-argument overloads share the contract of the lvalue ones)
+    names = {alias: N[key]}
     for f in fnptr: names[f] = N[f]
     for f in extra: names[f] = N[f]
     names_opt = dict(APV); names_opt.update({a: N[a] for a in uses})
     boundary = list(APV.values()) + [N[a] for a in uses] + [N[f] for f in fnptr]
     sfx = ('_mv' if val == MV else '') + ('_arg' if arg == 'int' else '_argmv' if arg == MV else '')
     defs = (['GEN_ARG 1'] if arg != 'void' else []) + (['CV_VAL_MV 1'] if val == MV else []) + (['CV_ARG_MV 1'] if arg == MV else [])
-    d = dict(name=name + sfx, driver=(DRV if (val, arg) in (('int', 'void'), ('int', 'int')) else DRV_T), roots=[N[alias]] + [N[f] for f in extra], names=names, names_opt=names_opt, types=T, globals=C_GLOBALS, boundary=boundary, lib=C_LIBS,
+    d = dict(name=name + sfx, driver=(DRV if (val, arg) in (('int', 'void'), ('int', 'int')) else DRV_T), roots=[N[key]] + [N[f] for f in extra], names=names, names_opt=names_opt, types=T, globals=C_GLOBALS, boundary=boundary, lib=C_LIBS,
              spec=['C13/drive_atomics.h', 'C13/g_spec.h', 'C13/h_g.c'], harness='h_' + name, enforce=alias, defines=defs,
-             under_contract=[N[alias].lstrip('^').rstrip('$').replace('\\', '')], timeout=300)
+             under_contract=[N[key].lstrip('^').rstrip('$').replace('\\', '')], timeout=300)
     # class types the debug-info resolver does not find (nested classes of the template): taken from parameter 0 of a member in the unit
     pt = {}
     if lam: pt['NF_LAM'] = N['nf_lambda'] + '#0'
     allal = [alias] + list(uses)
     na = [a for a in allal if a.startswith('na_')]
     if na: pt['NAWT'] = N[na[0]] + '#0'
-    elif alias == 'gen_next': pt['NAWT'] = N['gen_next'] + '#0'
+    elif alias == 'gen_next': pt['NAWT'] = N[key] + '#0'
     if alias.startswith('ys_'): pt['YS'] = N[alias] + '#0'
     if alias.startswith('yn_'): pt['YN'] = N[alias] + '#0'
     if alias == 'it_postinc' and val != 'int': pt['ISTORE'] = N[alias] + '#0'
@@ -164,6 +165,8 @@ CONTRACT_UNITS = [
     cu('na_subscribe', 'na_subscribe', uses=('pt_next_async_stub', 'chv_resume')),
     cu('gen_next', 'gen_next'), cu('gen_next', 'gen_next', 'int'), cu('gen_value', 'gen_value', replay=AE_REPLAY),
     cu('gen_call', 'gen_call', uses=('pt_next_future_stub',)), cu('gen_call', 'gen_call', 'int', uses=('pt_next_future_stub',)),
+    # the same contracts on the rvalue-argument overloads (stepping with a temporary: argument installed, nothing allocated - seed C20-4)
+    cu('gen_next_rv', 'gen_next', 'int', key='gen_next_rv', harness='h_gen_next'), cu('gen_call_rv', 'gen_call', 'int', uses=('pt_next_future_stub',), key='gen_call_rv', harness='h_gen_call'),
     cu('gen_done', 'gen_done'), cu('gen_bool', 'gen_bool'),
     cu('gen_begin', 'gen_begin', uses=('na_bool_stub',), under_contract=['cocls::generator<int, void>::begin()']), cu('gen_end', 'gen_end', under_contract=['cocls::generator<int, void>::end()']), cu('gen_deleter', 'gen_deleter', uses=('chpt_destroy',)),
     cu('it_ctor_fin', 'it_ctor_fin'), cu('it_ctor', 'it_ctor', uses=('na_bool_stub',)), cu('it_eq', 'it_eq'), cu('it_ne', 'it_ne'),
@@ -230,4 +233,5 @@ META = dict(
 # units whose contracts carry the no-allocation clause of C20 (stepping a generator: yield, hand-back, the three ways to ask, iterator step)
 C20_UNITS = ['yield_value_ref', 'yield_value_rref', 'ys_await_suspend', 'ys_await_resume', 'final_suspend', 'return_void', 'unhandled_exception',
              'next_async', 'next_sync', 'unblock_sync', 'resume_fn_sync', 'na_bool', 'na_await_ready', 'na_await_suspend', 'na_await_resume',
-             'gen_next', 'gen_value', 'it_inc', 'it_deref', 'it_postinc']
+             'gen_next', 'gen_value', 'it_inc', 'it_deref', 'it_postinc',
+             'gen_next_arg', 'gen_call_arg', 'gen_next_rv_arg', 'gen_call_rv_arg', 'set_arg_arg', 'next_sync_arg', 'ys_await_resume_arg', 'yn_await_resume_arg', 'yield_value_ref_arg', 'yield_value_null_arg', 'na_bool_arg']
